@@ -20,7 +20,8 @@ static _Bool g_sn_fail; static int g_sn_calls;
 ares_status_t ares_dns_record_query_set_name(ares_dns_record_t *r, size_t idx, const char *name) { if (g_sends < 4) g_sent_name[g_sends] = name; g_sn_calls++; return (g_sn_fail && g_sn_calls == 1) ? ARES_ENOMEM : ARES_SUCCESS; }
 ares_dns_rcode_t ares_dns_record_get_rcode(const ares_dns_record_t *r) { return (ares_dns_rcode_t)nondet_uint(); }
 size_t ares_dns_record_rr_cnt(const ares_dns_record_t *r, ares_dns_section_t s) { return nondet_size(); }
-ares_status_t ares_dns_query_reply_tostatus(ares_dns_rcode_t rc, size_t an) { ares_status_t s = (ares_status_t)(nondet_uint() % 26); return s; }
+static ares_status_t g_reply_status; static _Bool g_reply_fixed;
+ares_status_t ares_dns_query_reply_tostatus(ares_dns_rcode_t rc, size_t an) { if (g_reply_fixed) { g_reply_fixed = 0; return g_reply_status; } ares_status_t s = (ares_status_t)(nondet_uint() % 26); return s; }
 /* ASSUMED: contract of ares_send_nolock(): the callback is invoked exactly once - synchronously with the returned status on every failure, synchronously on a cache hit, or later (request outstanding) */
 ares_status_t ares_send_nolock(ares_channel_t *channel, ares_server_t *server, ares_send_flags_t flags, const ares_dns_record_t *dnsrec, ares_callback_dnsrec callback, void *arg, unsigned short *qid)
 {
@@ -38,8 +39,10 @@ void h_search_walk(void)
   for (int i = 0; i < 4; i++) { g_mode[i] = (int)(nondet_uint() % 3); g_fail[i] = (ares_status_t)(1 + nondet_uint() % 25); }
   g_user_cb = g_freed = g_sends = g_sn_calls = 0; g_sn_fail = nondet_bool();
   ares_status_t st = (ares_status_t)(1 + nondet_uint() % 25); size_t idx0 = sq->next_name_idx, cnt = sq->names_cnt; ares_bool_t nodata0 = sq->ever_got_nodata;
-  /* the answer for candidate idx0-1 arrives (no record: status as given) */
-  search_callback(sq, st, 0, NULL);
+  /* the answer for candidate idx0-1 arrives: either a bare status, or a server reply (status SUCCESS + record) whose rcode / answer
+   * count translate to st */
+  g_reply_status = st; g_reply_fixed = 1; _Bool with_rec = nondet_bool();
+  if (with_rec) search_callback(sq, ARES_SUCCESS, 0, (const ares_dns_record_t *)&rsp_tok); else search_callback(sq, st, 0, NULL);
   _Bool soft = st == ARES_ENODATA || st == ARES_ENOTFOUND || ((st == ARES_ESERVFAIL || st == ARES_EREFUSED) && ares_name_label_cnt(g_namev[idx0 - 1]) == 1);
   __CPROVER_assert(g_user_cb <= 1 && g_freed == g_user_cb, "C01: the search completes at most once, and is released exactly when it completes");
   if (!soft) { __CPROVER_assert(g_user_cb == 1 && g_user_status == st && g_sends == 0, "C12: a candidate that yields data or a hard error stops the search with that result"); return; }
@@ -47,7 +50,7 @@ void h_search_walk(void)
     __CPROVER_assert(g_sn_calls >= 1 && g_sent_name[0] == g_namev[idx0], "C12: otherwise the next candidate, in order, is tried");
     if (g_sn_fail) { __CPROVER_assert(g_sends == 0 && g_user_cb == 1 && g_user_status == ARES_ENOMEM, "C14: a failure before the request is started completes the search with that error"); return; }
     { int last = g_sends < 4 ? g_sends - 1 : 3;
-      if (g_sends >= 1 && g_mode[last] == 0) __CPROVER_assert(g_user_cb == 0 && g_freed == 0, "C12/C01: while a candidate is outstanding the search stays alive");
+      if (g_sends >= 1 && g_mode[last] == 0) { __CPROVER_assert(g_user_cb == 0 && g_freed == 0, "C12/C01: while a candidate is outstanding the search stays alive"); if (g_sends == 1) __CPROVER_assert(sq->ever_got_nodata == ((nodata0 || st == ARES_ENODATA) ? ARES_TRUE : ARES_FALSE), "C12: a candidate that exists without data is remembered (the final status is no-data if any candidate had none)"); }
       else __CPROVER_assert(g_user_cb == 1, "C01: if a request completes at once (failure or cache hit) and no candidate is left outstanding, the search has completed exactly once"); }
   } else {
     __CPROVER_assert(g_sends == 0 && g_user_cb == 1, "C12: after the last candidate the search completes");
